@@ -31,10 +31,12 @@ use pagable::PagableDeserialize;
 use pagable::PagableSerialize;
 use serde::Serialize;
 use starlark_derive::starlark_value;
+use starlark_map::StarlarkHashValue;
 
 use crate as starlark;
 use crate::any::ProvidesStaticType;
 use crate::collections::StarlarkHasher;
+use crate::private::Private;
 use crate::typing::Ty;
 use crate::typing::TyBasic;
 use crate::typing::TypingBinOp;
@@ -316,6 +318,10 @@ impl<'v> StarlarkValue<'v> for StarlarkBigInt {
             .get_hash_64()
             .hash(hasher);
         Ok(())
+    }
+
+    fn get_hash(&self, _private: Private) -> crate::Result<StarlarkHashValue> {
+        Ok(NumRef::Int(StarlarkIntRef::Big(self)).get_hash())
     }
 
     fn typechecker_ty(&self) -> Option<Ty> {
